@@ -381,6 +381,15 @@ type c07Rec struct {
 }
 type c07Pair [2]interface{}
 
+// ... and types whose interface-typed part sits one level down
+type c07Outer struct {
+	Name  string
+	Inner c07Rec
+}
+type c07Box struct {
+	Slots [1]interface{}
+}
+
 func dynComparable(v interface{}) (ok bool) {
 	defer func() {
 		if recover() != nil {
@@ -399,6 +408,8 @@ func c07ForeignEq(w *W, r *rand.Rand) {
 		c07Rec{1, nil}, c07Rec{1, "x"}, c07Rec{1, []int{1}}, c07Rec{2, map[string]int{"a": 1}}, c07Rec{2, int64(5)}, c07Rec{1, "x"},
 		c07Pair{int64(1), "a"}, c07Pair{[]int64{1}, "a"}, c07Pair{int64(1), "a"}, c07Pair{nil, func() {}}, c07Pair{nil, nil},
 		int64(7), "x", true, nil,
+		c07Outer{"o", c07Rec{1, "x"}}, c07Outer{"o", c07Rec{1, []int64{1}}}, c07Outer{"o", c07Rec{1, "x"}}, c07Outer{"p", c07Rec{1, nil}},
+		c07Box{[1]interface{}{int64(3)}}, c07Box{[1]interface{}{map[string]int{}}}, c07Box{[1]interface{}{int64(3)}},
 	}
 	type prog struct {
 		src  string
